@@ -206,7 +206,9 @@ theorem convert_consistent_ir (s t : Nat) (fb : Fallback) {d : Nat} (capi : CApi
 /-- **`convert_consistent`, `ModelProto` entry** (holds since commit 4aa0d5c; before it `declared` stayed
 stale — finding D9, fixed).  Either an exception propagates or the conversion is refused and the caller's
 proto is exactly what it was (`eraseVersions m0`: a proto has no node versions; the refused/no-op case
-returns the inlined model `eraseVersions m`), or the proto now declares `t`. -/
+returns the inlined model `eraseVersions m` — i.e. "unchanged" there means: graph replaced by the inlined graph, functions
+removed, nothing else), or the proto now declares `t`.  Unlike `convert_consistent_ir` the conclusion has NO per-node
+conjunct (`AllAt t`): a proto carries no node versions, so "every node is written for `t`" is not stated here. -/
 theorem convert_consistent_proto (s t : Nat) (fb : Fallback) {d : Nat} (capi : CApi (NodeD d)) (m0 m : Model (NodeD d))
     (hin : inlineModel (eraseVersions m0) = .ok m) (h : SelfConsistent (fun _ _ => ()) s m) :
     ((convertVersionApi .proto fb t capi m0).2 = none ∧
@@ -255,7 +257,10 @@ self-consistent model at `s` (`ValidModel`: every node a valid operator form at 
 no reference attributes, control-flow nodes own the subgraphs; any nesting depth), every target, `fallback`
 value and C-API behaviour: either the model is exactly what it was, or no exception escapes, it declares `t`,
 every default-domain node is written for `t`, and (native path) every non-auxiliary node reads at `t` as the
-corresponding source node read at `s`, inputs and initializers untouched. -/
+corresponding source node read at `s`, inputs and initializers untouched.  NOT covered: on the path through a successful
+ONNX C-API call (second inner disjunct: fallback on and not `18 ≤ s ≤ t ≤ 25` — in particular every downgrade that
+converts anything) there is no meaning claim at all, only `= recoverFallback m t ns` for whatever nodes `ns` the C API
+returned.  `m` is the model after the inline pass (`hin`). -/
 theorem convert_equivalent_ir (s t : Nat) (fb : Fallback) {d : Nat} (capi : CApi (NodeD d)) (m0 m : Model (NodeD d))
     (hin : inlineModel m0 = .ok m) (h : ValidModel s m) :
     ((convertVersionApi .ir fb t capi m0).2 = none ∧
@@ -270,7 +275,9 @@ theorem convert_equivalent_ir (s t : Nat) (fb : Fallback) {d : Nat} (capi : CApi
 
 /-- **`never_half_converted`, full statement (holds since 090a933).**  A valid model at `s` is either converted
 into valid forms at `t` only — every reading is `some`, the model declares `t`, every default-domain node at
-every nesting depth is written for `t` — or it is exactly what it was.  No hypothesis on the adapters. -/
+every nesting depth is written for `t` — or it is exactly what it was.  No hypothesis on the adapters.  This is a statement
+about `nativeConvert` (`_version_converter.convert_version`) only: the public entry reaches it with fallback off, or with
+fallback on when `18 ≤ s ≤ t ≤ 25`; the C-API route (every successful downgrade) is outside this theorem. -/
 theorem never_half_converted (s t : Nat) {d : Nat} (m : Model (NodeD d)) (h : ValidModel s m) :
     ((nativeConvert t m).2 = none ∧ (nativeConvert t m).1.declared = some t ∧
       AllAt t (nativeConvert t m).1.nodes ∧
@@ -322,7 +329,8 @@ theorem convert_consistent_ir_wf (s t : Nat) (fb : Fallback) {d : Nat} (capi : C
     ∨ (convertVersionApi .ir fb t capi m0).1 = m :=
   convert_consistent_ir s t fb capi m0 m hin h.selfConsistent
 
-/-- The same for the `ModelProto` entry. -/
+/-- The same for the `ModelProto` entry (same restrictions as `convert_consistent_proto`: no `AllAt t` conjunct; the
+"unchanged" alternatives are `eraseVersions m0` and the inlined `eraseVersions m`). -/
 theorem convert_consistent_proto_wf (s t : Nat) (fb : Fallback) {d : Nat} (capi : CApi (NodeD d)) (m0 m : Model (NodeD d))
     (hin : inlineModel (eraseVersions m0) = .ok m) (h : ShapeModel WellFormedGN s m) :
     ((convertVersionApi .proto fb t capi m0).2 = none ∧
@@ -364,7 +372,9 @@ example : ShapeModel WellFormedGN 20 d13aModel := by
 
 /-! ## Evaluation level (straight-line graphs) -/
 
-/-- **`convert_evalGraph`** (no hypothesis on the adapters since 090a933: validity of the source suffices).
+/-- **`convert_evalGraph`** (no hypothesis on the adapters since 090a933: validity of the source suffices).  Restricting
+hypotheses (none dischargeable inside the model): `hl : Laws sem chan`, `ht : AllTruthful …`, straight-line graphs of
+single-output nodes (`ENode`; no subgraphs, no functions), every node `n.ver = s`, names below `b`, valid at `s`.
 For *every* operator semantics `sem` — an uninterpreted function of (operator with attributes, opset version,
 inputs) — that satisfies the adapter laws `Laws sem` (hypotheses about the run time: GridSample is determined by
 its interpolation/align/padding, DFT-20 with a constant axis input = DFT-17 with that attribute,
@@ -410,7 +420,8 @@ theorem groupnorm_wiring_index {D E : Type} (sem : OpSem D E) (e : Env D E) (src
   ⟨expandScale k vs, (chain_eval sem e src cA cB cC o1 o2 o3 w k vs h1 hA hB hC d1 d2 d3).1,
     (groupnorm_scale_expand k vs).1, fun i hi => groupnorm_scale_expand_div k vs i hi⟩
 
-/-- The whole rewritten block of one GroupNormalization node (10 wired nodes for the static rewrite, 17 for the
+/-- (Hypotheses: `Laws sem chan`, `Truthful chan env n`, `n.ver = 20`, the node valid at 20, straight-line single-output
+node.)  The whole rewritten block of one GroupNormalization node (10 wired nodes for the static rewrite, 17 for the
 run-time-ratio rewrite with `Shape`/`Div`/`Concat` interpreted) evaluates, on every name of the
 source graph, to what the opset-20 node evaluated to. -/
 theorem groupnorm_rewrite_evalGraph {D E : Type} (sem : OpSem D E) (chan : D → Nat) (hl : Laws sem chan) (env : Env D E) (n : ENode)
@@ -433,7 +444,7 @@ theorem step_loop_composes (a b v : Nat) (l : Leaf) :
   leafSteps_compose_lemma a b v l
 
 /-- **Valid models are closed under conversion.**  Converting a valid self-consistent model at `s` (any nesting
-depth) to any target either leaves it exactly as it was or yields a model that is again valid and self-consistent
+depth) to any target with `nativeConvert` (native route only; not the C-API route) either leaves it exactly as it was or yields a model that is again valid and self-consistent
 — now at `t` — with the same readings, inputs and initializers.  Hence every theorem about *one* conversion of a
 valid model applies to the result of a previous conversion. -/
 theorem convert_closed (s t : Nat) {d : Nat} (m : Model (NodeD d)) (h : ValidModel s m) :
@@ -536,7 +547,8 @@ that is written for `s` and carries no reference attribute, with `s ≤ u ≤ t`
 `u`: the visit of a conversion to `u` followed — on every node it left, now under the declared opset `u` — by the
 visit of a conversion to `t` produces exactly the node list (operators, attributes, version stamps) that the single
 conversion to `t` produces, and none of the three visits raises.  So `18 → 20 → 22` and `18 → 22` cannot differ on
-such a node, whatever the adapters insert. -/
+such a node, whatever the adapters insert.  All six hypotheses are needed as stated (`hd hv hr h1 h2 hg`); the statement is about
+`visitLeaf` only — nodes that own subgraphs, custom-domain nodes and the entry logic around the visit are not covered. -/
 theorem two_calls_eq_one_call (s u t : Nat) (l : Leaf) (hd : l.dflt = true) (hv : l.eff s = s)
     (hr : l.refAttr = false) (h1 : s ≤ u) (h2 : u ≤ t) (hg : ∀ v', s ≤ v' → v' < u → adapt l.op v' ≠ .raised) :
     (visitLeaf (some s) u l).1.flatMap (fun l' => (visitLeaf (some u) t l').1) = (visitLeaf (some s) t l).1 ∧
@@ -561,7 +573,7 @@ example : leafSteps (2 + 2) 18 (newLeaf (.groupNorm gnStatic) 18)
 
 /-! ## Signature and initializers -/
 
-/-- **`signature_kept`.**  On every path that converts (native, or C API followed by the input truncation
+/-- **`signature_kept`** (definitional: unfolds `recoverFallback`; its content is the model's `take`, tied by the `fallback` stream).  On every path that converts (native, or C API followed by the input truncation
 `inputs[:len(model.graph.inputs)]`) the graph inputs are the original ones, in order — for every
 initializer list and whatever the C API returned. -/
 theorem signature_kept {α} [Inner α] (m : Model α) (t : Nat) (ns : List (Node α)) :
@@ -706,7 +718,7 @@ theorem restore_value_frame (orig : List V) (v : V) :
   exact ⟨trivial, fun k => merge_get _ _ _, trivial⟩
 
 open OV.C10.Meta in
-/-- **Graph level**: the same law for `graph.metadata_props` and `graph.doc_string`; node and value lists keep their
+/-- **Graph level** (definitional except for `merge_get`): the same law for `graph.metadata_props` and `graph.doc_string`; node and value lists keep their
 length and order (every entry is the restored image of the entry at the same position).  Metadata of nested subgraph
 objects themselves is not part of `_restore_metadata` and is not restored. -/
 theorem restore_graph_frame (orig conv : Gr) :
@@ -789,7 +801,7 @@ theorem proto_in_place_refuted :
     (protoRebuild importsWitness.imports (converted importsWitness 21)) = [("", 21), ("priv", 1)] := by
   refine ⟨⟨by decide, by decide⟩, by decide, by decide⟩
 
-/-- **`functions_kept_or_inlined`.**  The pass inlines first: whenever the inline pass succeeds no
+/-- **`functions_kept_or_inlined`** (definitional: reads the fields `inlineModel` writes; `InlinePass` itself is a contract).  The pass inlines first: whenever the inline pass succeeds no
 function is left (their behaviour is preserved by the `InlinePass` contract, A-ir), and the default-domain
 import is held under the `""` key only. -/
 theorem functions_kept_or_inlined {α} [Inner α] (m0 m : Model α) (h : inlineModel m0 = .ok m) : m.funcs = [] ∧ m.aionnx = none := by
@@ -800,7 +812,7 @@ theorem functions_kept_or_inlined {α} [Inner α] (m0 m : Model α) (h : inlineM
 
 /-! ## Non-vacuity -/
 
-/-- A self-consistent opset-18 model satisfying every hypothesis of `convert_equivalent_ir_partial`:
+/-- A self-consistent opset-18 model satisfying every hypothesis of `convert_equivalent_ir_of_good`:
 GridSample(bilinear) and an `If` whose branches hold DFT(axis=1) and GroupNormalization(num_groups=2, C=4). -/
 def demoModel : Model (NodeD 0) :=
   { declared := some 18, aionnx := none, funcs := [], inputs := ["x"], inits := ["s", "b"],
@@ -814,7 +826,7 @@ example : (nativeConvert 21 demoModel).2 = none ∧ (nativeConvert 21 demoModel)
     pmNodes Op.meaning 21 (nativeConvert 21 demoModel).1.nodes = pmNodes Op.meaning 18 demoModel.nodes ∧
     (nativeConvert 21 demoModel).1.nodes ≠ demoModel.nodes := by decide
 
-/-- `demoModel` satisfies the hypothesis of `convert_equivalent_ir_partial` / `never_half_converted_partial`
+/-- `demoModel` satisfies the hypothesis of `convert_equivalent_ir_of_good` (`SelfConsistent Op.meaning`)
 (so those theorems are not vacuous), and the inline pass is the identity on it. -/
 example : SelfConsistent Op.meaning 18 demoModel ∧ inlineModel demoModel = .ok demoModel := by
   have hgs : ∀ v', Good Op.meaning (.gridSample (some "bilinear") none none) v' := fun v' => by
